@@ -470,6 +470,23 @@ Proof.
   - split; [exact G|]. split; [apply lframe_refl|]. repeat split; auto. unfold m_wq. rewrite Ew. reflexivity.
 Qed.
 
+Lemma unref_other s r r1 : r1 <> r -> aget (store (unref s r)) r1 = aget (store s) r1.
+Proof.
+  intros H. unfold unref. destruct (aget (store s) r) as [l|] eqn:Hr; auto.
+  assert (E1 : aget (store (setl s r (l <| l_refc := dec8 (l_refc l) |>))) r1 = aget (store s) r1).
+  { rewrite store_setl, aget_aset. destruct (r =? r1) eqn:E; auto. apply N.eqb_eq in E. congruence. }
+  destruct (dec8 (l_refc l) =? 0); auto.
+  unfold free_lock. destruct (aget (store (setl s r (l <| l_refc := dec8 (l_refc l) |>))) r) as [l2|]; auto.
+  assert (E2 : forall s0 k f, store (updm s0 k f) = store s0) by (intros; unfold updm; destruct (aget (mgrs s0) k); reflexivity).
+  rewrite E2. cbn [store]. 
+  change (store (setl s r (l <| l_refc := dec8 (l_refc l) |>) <| store := adel (store (setl s r (l <| l_refc := dec8 (l_refc l) |>))) r |>))
+    with (adel (store (setl s r (l <| l_refc := dec8 (l_refc l) |>))) r).
+  rewrite aget_adel. destruct (r =? r1) eqn:E; [apply N.eqb_eq in E; congruence|auto].
+Qed.
+Lemma unref_other_getl s r r1 : r1 <> r -> getl (unref s r) r1 = getl s r1.
+Proof. intros H. unfold getl. rewrite unref_other; auto. Qed.
+
+
 (* ---------------------------------------------------------------- holder queue: compaction *)
 Lemma holder_timeouted s g k r l : GInv s g -> In r (holders (getm s k)) -> aget (store s) r = Some l ->
   l_timeouted l = true /\ l_key l = k.
@@ -490,17 +507,19 @@ Lemma hq_compact_ginv items : forall s g k A,
   exists ph', let '(s', kept) := hq_compact s items in
     GInv s' (g <| g_ph := ph' |>) /\ qframe s s'
     /\ (forall r0, (occ r0 (A ++ kept) + occ r0 ph' = occ r0 (phl s' (g <| g_ph := ph' |>)))%nat)
-    /\ (length kept <= length items)%nat.
+    /\ (length ph' + length kept = length (g_ph g) + length items)%nat
+    /\ (forall x, ~ In x items -> aget (store s') x = aget (store s) x).
 Proof.
   induction items as [|r rest IH]; intros s g k A G Hk Hpw Ho Hq Hrel.
-  - exists (g_ph g). simpl. rewrite gph_id. split; [exact G|]. split; [apply qframe_refl|]. split; [exact Hrel|lia].
+  - exists (g_ph g). simpl. rewrite gph_id. split; [exact G|]. split; [apply qframe_refl|]. split; [exact Hrel|]. split; [lia|auto].
   - simpl. destruct (0 <? l_locked (getl s r)) eqn:El.
     + assert (Hrel' : forall r0, (occ r0 ((A ++ [r]) ++ rest) + occ r0 (g_ph g) = occ r0 (phl s g))%nat).
       { intros r0. rewrite <- app_assoc. apply Hrel. }
       destruct (IH s g k (A ++ [r]) G Hk Hpw Ho (fun x Hx => Hq x (or_intror Hx)) Hrel') as [ph' P]. exists ph'.
-      destruct (hq_compact s rest) as [s' kept]. destruct P as [P1 [P2 [P3 P4]]].
-      split; [exact P1|]. split; [exact P2|]. split; [|simpl; lia].
-      intros r0. specialize (P3 r0). rewrite <- app_assoc in P3. exact P3.
+      destruct (hq_compact s rest) as [s' kept]. destruct P as [P1 [P2 [P3 [P4 P5]]]].
+      split; [exact P1|]. split; [exact P2|]. split; [|split; [simpl; lia|]].
+      * intros r0. specialize (P3 r0). rewrite <- app_assoc in P3. exact P3.
+      * intros x Hx. apply P5. intros Hi. apply Hx. right. auto.
     + apply N.ltb_ge in El.
       assert (Hrel' : forall r0, (occ r0 (r :: A ++ rest) + occ r0 (g_ph g) = occ r0 (phl s g))%nat).
       { intros r0. specialize (Hrel r0). rewrite occ_app, occ_cons in Hrel. rewrite occ_cons, occ_app. lia. }
@@ -511,8 +530,9 @@ Proof.
         apply (holder_timeouted s g k r l G Hinh Hr). }
       destruct (drop_step s g k r (A ++ rest) G Hk Ho (Hq r (or_introl eq_refl)) Hrel' Hdead) as [G1 R1]; [intros; lia|].
       destruct (IH (unref s r) (g <| g_ph := r :: g_ph g |>) k A G1 Hk Hpw Ho (fun x Hx => Hq x (or_intror Hx)) R1) as [ph' P]. exists ph'.
-      destruct (hq_compact (unref s r) rest) as [s' kept]. rewrite gph_twice in P. destruct P as [P1 [P2 [P3 P4]]].
-      split; [exact P1|]. split; [eapply qframe_trans; [apply unref_qframe|exact P2]|]. split; [exact P3|simpl; lia].
+      destruct (hq_compact (unref s r) rest) as [s' kept]. rewrite gph_twice in P. destruct P as [P1 [P2 [P3 [P4 P5]]]].
+      split; [exact P1|]. split; [eapply qframe_trans; [apply unref_qframe|exact P2]|]. split; [exact P3|]. split; [gs; simpl in *; lia|].
+      intros x Hx. rewrite P5 by (intros Hi; apply Hx; right; auto). apply unref_other. intros ->. apply Hx. left. auto.
 Qed.
 
 (* ---------------------------------------------------------------- holder queue: pops *)
@@ -540,22 +560,6 @@ Proof.
 Qed.
 Lemma hq_items_removelock q id : hq_items (hq_removelock q id) = hq_items q.
 Proof. unfold hq_removelock, hq_items. destruct (hq_scale q) as [[l mp]|] eqn:E; cbn; rewrite ?E; auto. Qed.
-
-Lemma unref_other s r r1 : r1 <> r -> aget (store (unref s r)) r1 = aget (store s) r1.
-Proof.
-  intros H. unfold unref. destruct (aget (store s) r) as [l|] eqn:Hr; auto.
-  assert (E1 : aget (store (setl s r (l <| l_refc := dec8 (l_refc l) |>))) r1 = aget (store s) r1).
-  { rewrite store_setl, aget_aset. destruct (r =? r1) eqn:E; auto. apply N.eqb_eq in E. congruence. }
-  destruct (dec8 (l_refc l) =? 0); auto.
-  unfold free_lock. destruct (aget (store (setl s r (l <| l_refc := dec8 (l_refc l) |>))) r) as [l2|]; auto.
-  assert (E2 : forall s0 k f, store (updm s0 k f) = store s0) by (intros; unfold updm; destruct (aget (mgrs s0) k); reflexivity).
-  rewrite E2. cbn [store]. 
-  change (store (setl s r (l <| l_refc := dec8 (l_refc l) |>) <| store := adel (store (setl s r (l <| l_refc := dec8 (l_refc l) |>))) r |>))
-    with (adel (store (setl s r (l <| l_refc := dec8 (l_refc l) |>))) r).
-  rewrite aget_adel. destruct (r =? r1) eqn:E; [apply N.eqb_eq in E; congruence|auto].
-Qed.
-Lemma unref_other_getl s r r1 : r1 <> r -> getl (unref s r) r1 = getl s r1.
-Proof. intros H. unfold getl. rewrite unref_other; auto. Qed.
 
 Lemma map_ok_pop_dead s q r q' : map_ok s q -> hq_pop q = (Some r, q') -> l_locked (getl s r) = 0 -> map_ok (unref s r) q'.
 Proof.
